@@ -61,7 +61,9 @@ def r3(ctx, rule="C02.R3"):
         if not uses:
             ctx.fail(rule, "11.8#length-independent-of-value", "the octet count `%s` does not depend on the value: the encoding is not "
                                                                 "minimal" % detail["octet_count"][:80], cs.loc(), detail)
-        elif all(uses):
+        elif all(uses) or any(param_uses(alt, vidx[0]) and all(param_uses(alt, vidx[0]))
+                              for e in X.walk(ex) if e[0] == "phi" for alt in e[1]):
+            # the whole count, or the count of one branch (`if value < 0 { value.unsigned_abs().leading_zeros() } else ..`)
             ctx.fail(rule, "11.8#length-from-magnitude-only", "the octet count is computed from |value| only (`%s`): negative powers of two "
                                                                "such as -128 get one octet too many (X.691 10.4 requires the minimal "
                                                                "two's complement form)" % detail["octet_count"][:100], cs.loc(), detail)
